@@ -3,7 +3,7 @@ import collections, re
 from ..build import AnalysisBroken
 from ..mast import walk, calls, callee, strip_casts, pp, CFG
 from ..facts import short, NS
-from . import common, xpathops
+from . import common, xpathops, c12_merge
 
 FLAG = {'setDocumentOrder', 'setReverseDocumentOrder'}
 ADD = {'addNode', 'addNodeInDocOrder', 'addNodesInDocOrder', 'addNodes'}
@@ -200,3 +200,6 @@ def run(res, facts, tier):
             r4.violation(site, 'a path leaves the function after %s.addNode() without setting the order flag of %s' % (lst, lst), common.file_line(a, c))
         else:
             r4.ok(site, 'flag set on every path after the add')
+
+    c12_merge.r5_merge(res, facts)
+    res.assume('C12: the search strategies inside addNodeInDocOrder (binary search by index, linear search by predicate) and the index numbering of a source tree are behavioural and not decided; R5 decides which nodes may bypass them')
